@@ -2017,6 +2017,10 @@ func (fr *Frame) atCallAsserts(c *ssa.CallCommon, callee *ssa.Function, args []V
 		if cl.Loop != 0 && cl.Loop != fr.callSiteOrdinal(cl.Names[0], c) {
 			continue
 		}
+		if x.atHits == nil {
+			x.atHits = map[*Clause]int{}
+		}
+		x.atHits[cl]++
 		env := fr.rootEnv(st)
 		env.lookup = func(name string) (SV, bool) { return fr.resolveLocalAt(name, st) }
 		for i, a := range args {
